@@ -127,11 +127,6 @@ def _migrate_csv_to_rules(csv_file: str, config_dir: str, backup: bool = True) -
         print(f"  {C.GREEN}✓{C.RESET} Created: config/merchants.rules")
         print(f"      Converted {len(csv_rules)} merchant rules to new format")
 
-        # Backup old file
-        if backup and os.path.exists(csv_file):
-            shutil.move(csv_file, csv_file + '.bak')
-            print(f"  {C.GREEN}✓{C.RESET} Backed up: merchant_categories.csv → .bak")
-
         # Update settings.yaml to reference new file
         settings_path = os.path.join(config_dir, 'settings.yaml')
         if os.path.exists(settings_path):
@@ -143,6 +138,12 @@ def _migrate_csv_to_rules(csv_file: str, config_dir: str, backup: bool = True) -
                     f.write('merchants_file: config/merchants.rules\n')
                 print(f"  {C.GREEN}✓{C.RESET} Updated: config/settings.yaml")
                 print(f"      Added merchants_file: config/merchants.rules")
+
+        # Backup old file last: until the new file is written and referenced,
+        # the CSV stays where load_config finds it
+        if backup and os.path.exists(csv_file):
+            shutil.move(csv_file, csv_file + '.bak')
+            print(f"  {C.GREEN}✓{C.RESET} Backed up: merchant_categories.csv → .bak")
 
         return True
     except Exception as e:
